@@ -31,9 +31,10 @@ const void *g_user_buf; size_t g_user_len;   /* the caller's buffer */
 int       g_new_fd;             /* descriptor produced by accept()/socket() */
 _Bool     g_new_fd_live, g_new_fd_cloexec, g_new_fd_nonblock;
 int       g_send_flags;
+unsigned long g_so_error_read_at_polls;   /* number of polls made when SO_ERROR was last read (the result of an asynchronous connect is final only after the wait) */
 const struct sockaddr *g_addr_arg; socklen_t g_addr_len; int g_addr_family;
 
-#define SOCK_GHOSTS g_errno, g_native, g_polls, g_xfers, g_closes, g_accepts, g_connects, g_sockopts, g_xfer_ok, g_xfer_count, g_xfer_errno, \
+#define SOCK_GHOSTS g_so_error_read_at_polls, g_errno, g_native, g_polls, g_xfers, g_closes, g_accepts, g_connects, g_sockopts, g_xfer_ok, g_xfer_count, g_xfer_errno, \
 	g_last_fail_poll, g_poll_rc, g_new_fd, g_new_fd_live, g_new_fd_cloexec, g_new_fd_nonblock, g_send_flags, g_addr_arg, g_addr_len, g_addr_family, g_fd_live, g_close_failed, g_binds, g_listens, g_shutdowns, g_listen_backlog_arg, g_shutdown_how, \
 	g_socket_calls, g_socket_type_arg, g_setsockopt_name, g_setsockopt_val, g_setsockopt_ok
 #define SOCK_INIT (g_native == 0 && g_polls == 0 && g_xfers == 0 && g_closes == 0 && g_accepts == 0 && g_connects == 0 && g_sockopts == 0 && \
@@ -115,6 +116,7 @@ int getsockopt (int fd, int level, int optname, void *optval, socklen_t *optlen)
 	ENV_REQ ((fd == g_sock_fd && g_fd_live) || (fd == g_new_fd && g_new_fd_live), "getsockopt on a live descriptor of the library");
 	if (g_getsockopt_fails && nondet_bool ()) { FAIL_ANY_ERRNO; g_last_fail_poll = 0; return -1; }
 	ENV_REQ (optval != NULL && optlen != NULL && *optlen >= sizeof (int), "getsockopt: int-sized option buffer");
+	if (optname == SO_ERROR) g_so_error_read_at_polls = g_polls;
 	*(int *) optval = (optname == SO_ERROR) ? g_so_error : nondet_int ();
 	*optlen = nondet_bool () ? sizeof (int) : 1;
 	return 0;
